@@ -134,7 +134,7 @@ func init() {
 	Registry["C04"] = func(tier string) []fw.Scenario {
 		maxVals := 3
 		if tier == "thorough" {
-			maxVals = 5
+			maxVals = 8
 		}
 		var scns []fw.Scenario
 		rows := cat.AllRows()
@@ -162,7 +162,7 @@ func init() {
 		chain := cat.ChainRows()
 		pairVals := 2
 		if tier == "thorough" {
-			pairVals = 3
+			pairVals = 5
 		}
 		for _, a := range chain {
 			for _, b := range chain {
